@@ -1,5 +1,149 @@
 import Toq.Driver.Util
-/-! Driver handlers for C14 (stub; filled in by the owner of this property). -/
+import Toq.Driver.QJson
+import Toq.Model.Entangle
+/-! Driver handlers for C14: exact Schmidt rank / product test / purity / closed forms on Gaussian-rational data.
+
+Complex rational arrays travel as `{"den": D, "re": [ints], "im": [ints]}` (entries `(re + i·im)/D`, row-major);
+rationals as `[num, den]`. -/
+open Lean Toq.Entangle
+
 namespace Toq.Driver.C14
-def handlers : List (String × Handler) := []
+
+/-- flat Gaussian-rational array -/
+def getQIArray (j : Json) (key : String) : Except String (Array QI) := do
+  let o ← j.getObjVal? key
+  let den ← getNat o "den"
+  if den == 0 then throw s!"{key}: zero denominator"
+  let re ← getIntArray o "re"
+  let im := (getIntArray o "im").toOption.getD (Array.replicate re.size 0)
+  if im.size != re.size then throw s!"{key}: re/im size mismatch"
+  let d : Rat := (den : Rat)
+  return (Array.range re.size).map fun k => ⟨((re[k]! : Int) : Rat) / d, ((im[k]! : Int) : Rat) / d⟩
+
+def qiJson (a : QI) : Json := Json.arr #[ratJson a.re, ratJson a.im]
+def qiArrayJson (a : Array QI) : Json := Json.arr (a.map qiJson)
+
+def vecFn (a : Array QI) : Nat → QI := fun k => a[k]!
+def matFn (a : Array QI) (cols : Nat) : Nat → Nat → QI := fun i j => a[i * cols + j]!
+
+/-- store a function matrix (so that entries are not recomputed) -/
+def memo (r c : Nat) (f : Nat → Nat → QI) : Nat → Nat → QI := matFn (arrayOfMat r c f) c
+def memoV (n : Nat) (f : Nat → QI) : Nat → QI := vecFn (arrayOfFn n f)
+
+def idM : Nat → Nat → QI := fun i j => if i = j then 1 else 0
+
+def eqM (r c : Nat) (X Y : Nat → Nat → QI) : Bool :=
+  allBelow r fun i => allBelow c fun j => decide (X i j = Y i j)
+
+def isUnitary (d : Nat) (U : Nat → Nat → QI) : Bool :=
+  eqM d d (mmul d U (ctr U)) idM && eqM d d (mmul d (ctr U) U) idM
+
+def getSize (j : Json) : Except String (Nat × Nat) := do
+  let dA ← getNat j "dA"
+  let dB ← getNat j "dB"
+  if dA == 0 || dB == 0 then throw "zero local dimension"
+  return (dA, dB)
+
+/-- planted pure state `ψ = (U ⊗ V) Σ_i s_i |i i⟩` -/
+def hPlanted : Handler := fun j => do
+  let (dA, dB) ← getSize j
+  let s ← getRatList j "s"
+  if s.length > min dA dB then throw "too many Schmidt coefficients"
+  let Ua ← getQIArray j "U"
+  let Va ← getQIArray j "V"
+  if Ua.size != dA * dA || Va.size != dB * dB then throw "unitary size mismatch"
+  let U := matFn Ua dA
+  let V := matFn Va dB
+  let ψ0 : Nat → QI := vecOfAmp dB fun a b => if a = b then QI.ofRat (s.getD a 0) else 0
+  let ψ := memoV (dA * dB) (kronApply dB dA dB U V ψ0)
+  let n2 := sumN (dA * dB) fun i => ψ i * (ψ i).conj
+  return Json.mkObj [
+    ("unitaryU", Json.bool (isUnitary dA U)), ("unitaryV", Json.bool (isUnitary dB V)),
+    ("psi", qiArrayJson (arrayOfFn (dA * dB) ψ)), ("norm2", qiJson n2),
+    ("rank", Json.num (schmidtRankVec dA dB ψ : Nat)), ("support", Json.num (supportSize s : Nat))]
+
+/-- exact data of a bipartite vector -/
+def hVec : Handler := fun j => do
+  let (dA, dB) ← getSize j
+  let a ← getQIArray j "psi"
+  if a.size != dA * dB then throw "vector size mismatch"
+  let ψ := vecFn a
+  return Json.mkObj [
+    ("rank", Json.num (schmidtRankVec dA dB ψ : Nat)), ("rank_spec", Json.num (schmidtRankSpec dA dB ψ : Nat)),
+    ("rank_old", Json.num (schmidtRankVecOld dA dB ψ : Nat)),
+    ("is_product", Json.bool (isProductVec dA dB ψ)),
+    ("norm2", ratJson (sumN (dA * dB) fun i => ψ i * (ψ i).conj).re),
+    ("mod2", Json.arr ((arrayOfFn (dA * dB) fun i => (ψ i * (ψ i).conj).re).map ratJson))]
+
+/-- exact data of an operator on `C^{dA} ⊗ C^{dB}` -/
+def hOp : Handler := fun j => do
+  let (dA, dB) ← getSize j
+  let a ← getQIArray j "rho"
+  let N := dA * dB
+  if a.size != N * N then throw "operator size mismatch"
+  let ρ := matFn a N
+  let amp := memo (dA * dA) (dB * dB) (operatorAmp dA dB ρ)
+  let spec := realignAmp dA dB ρ
+  return Json.mkObj [
+    ("rank", Json.num (rankQ (dA * dA) (dB * dB) amp : Nat)), ("rank_spec", Json.num (schmidtRankOpSpec dA dB ρ : Nat)),
+    ("mirror_eq_spec", Json.bool (eqM (dA * dA) (dB * dB) amp spec)),
+    ("is_product", Json.bool (isProductOp dA dB ρ)),
+    ("purity", qiJson (purityM N ρ)), ("trace", qiJson (traceM N ρ)),
+    ("hermitian", Json.bool (eqM N N ρ (ctr ρ)))]
+
+/-- `(U ⊗ V) ρ (U ⊗ V)ᴴ` exactly, with the partial-transpose covariance checked on the instance -/
+def hLocalUnitaryOp : Handler := fun j => do
+  let (dA, dB) ← getSize j
+  let N := dA * dB
+  let a ← getQIArray j "rho"
+  let Ua ← getQIArray j "U"
+  let Va ← getQIArray j "V"
+  if a.size != N * N || Ua.size != dA * dA || Va.size != dB * dB then throw "size mismatch"
+  let ρ := matFn a N
+  let U := matFn Ua dA
+  let V := matFn Va dB
+  let W := memo N N (kron2 dB dB U V)
+  let Wc := memo N N (kron2 dB dB U (fun i k => (V i k).conj))
+  let ρ' := memo N N (mmul N (memo N N (mmul N W ρ)) (ctr W))
+  let lhs := pTB dB ρ'
+  let rhs := mmul N (memo N N (mmul N Wc (pTB dB ρ))) (ctr Wc)
+  return Json.mkObj [
+    ("unitaryU", Json.bool (isUnitary dA U)), ("unitaryV", Json.bool (isUnitary dB V)),
+    ("rho", qiArrayJson (arrayOfMat N N ρ')),
+    ("pt_covariant", Json.bool (eqM N N lhs rhs)),
+    ("purity_before", qiJson (purityM N ρ)), ("purity_after", qiJson (purityM N ρ')),
+    ("rank_before", Json.num (schmidtRankOpSpec dA dB ρ : Nat)), ("rank_after", Json.num (schmidtRankOpSpec dA dB ρ' : Nat))]
+
+/-- verified rank certificate: `A = B·C`, `L·A·R = 1_r` ⇒ `rank A = r` -/
+def hRankCert : Handler := fun j => do
+  let n ← getNat j "n"
+  let m ← getNat j "m"
+  let r ← getNat j "r"
+  let rd (key : String) (p q : Nat) : Except String (EMat p q) := do
+    let a ← getQIArray j key
+    if a.size != p * q then throw s!"{key}: size mismatch"
+    return EMat.ofFn fun i k => a[i.val * q + k.val]!
+  let A ← rd "A" n m
+  let B ← rd "B" n r
+  let C ← rd "C" r m
+  let L ← rd "L" r n
+  let R ← rd "R" m r
+  return Json.mkObj [("ok", Json.bool (rankCert A B C L R)), ("factor", Json.bool (A.beq (B.mul C))),
+    ("inverse", Json.bool (((L.mul A).mul R).beq EMat.one))]
+
+/-- closed forms from exact Schmidt coefficients -/
+def hClosed : Handler := fun j => do
+  let s ← getRatList j "s"
+  let p := schmidtProbs s
+  return Json.mkObj [
+    ("negativity", ratJson (negativityClosed s)), ("logarg", ratJson (logNegArg s)),
+    ("probs", Json.arr (p.map ratJson).toArray), ("norm2", ratJson (sumQ p)),
+    ("support", Json.num (supportSize s : Nat)),
+    ("concurrence", ratJson (concurrenceClosed (s.getD 0 0) (s.getD 1 0))),
+    ("sk2", Json.arr (((List.range s.length).map fun k => ratJson (skVecNormSq p (k + 1))).toArray))]
+
+def handlers : List (String × Handler) :=
+  [("c14_planted", hPlanted), ("c14_vec", hVec), ("c14_op", hOp), ("c14_local_unitary_op", hLocalUnitaryOp),
+   ("c14_rank_cert", hRankCert), ("c14_closed", hClosed)]
+
 end Toq.Driver.C14
